@@ -61,8 +61,23 @@ KERNEL_METHODS = [
 
 
 def run(ctx: Context, col) -> None:
+    """The rule groups are independent: one that cannot be decided (ANALYSIS-ERROR) does not keep the others from being
+    decided and reported."""
     cls = ctx.ct.get("PeriodicValueIteration")
     file = cls.module.relpath
+    errors = []
+    for part in (_measure, _step, _order_and_sweep, _initial_history):
+        try:
+            part(ctx, col, cls, file)
+        except AnalysisError as e:
+            errors.append(str(e))
+    if errors:
+        raise AnalysisError("; ".join(errors))
+    for r_, k in (("R7.1", 2), ("R7.2", 1), ("R7.3", 1), ("R7.4", 2), ("R7.5", 1), ("R7.6", 1), ("R7.7", 1), ("R7.8", 1)):
+        col.floor(r_, k)
+
+
+def _measure(ctx, col, cls, file):
     I = solver_interp(ctx, cls, "span")
     I.axes.update({"NEW": ("state",), "OLD": ("state",), "HIST": ("hist", "state")})
     NEW, OLD, h, P, H, n, g = S("NEW"), S("OLD"), S("h"), S("P"), S("HIST"), S("n"), S("g")
@@ -127,7 +142,11 @@ def run(ctx: Context, col) -> None:
                 "span( sum_{p<period} (H[h-p] - H[h-p-1]) * gamma^-(n-p-1) )" if ok3 else
                 f"discounted measure is {brief(disc, 300)}; documented: {brief(want, 200)}", text="discounted measure")
 
-    # --- R7.6 / R7.7 the step
+
+
+def _step(ctx, col, cls, file):
+    NEW, OLD, h, P, H, n, g = S("NEW"), S("OLD"), S("h"), S("P"), S("HIST"), S("n"), S("g")
+    # --- R7.6 the step
     I2 = solver_interp(ctx, cls, "span", extra_facts={
         "history_index": S("HIDX"), "value_history": S("HIST"), "period": S("self.period")})
     I2.axes.update({"HIST": ("hist", "state")})
@@ -153,6 +172,9 @@ def run(ctx: Context, col) -> None:
             "measure(new, self.values, advanced index, period, history incl. the new row, self.iteration, self.gamma)" if ok6 else
             ("history row is not stored at the advanced index before the test" if not ok_H else
              "the seven convergence arguments do not bind to the formals by role: " + brief(conv, 200)), text="convergence call binding")
+
+
+def _order_and_sweep(ctx, col, cls, file):
     # n counts the current sweep: INC precedes STEP in solve on every path
     loop = ctx.solve_loop(cls)
     ok_n = True
@@ -170,10 +192,20 @@ def run(ctx: Context, col) -> None:
     overridden = [m for m in KERNEL_METHODS if m in cls.methods]
     Iv_ = solver_interp(ctx, vi, "span")
     rv = Iv_.call_method("_iteration_step")
+    I2 = solver_interp(ctx, cls, "span", extra_facts={
+        "history_index": S("HIDX"), "value_history": S("HIST"), "period": S("self.period")})
+    I2.axes.update({"HIST": ("hist", "state")})
+    try:
+        new = I2.call_method("_iteration_step")[1][0]
+    except Unsupported as e:
+        raise AnalysisError(f"PeriodicValueIteration._iteration_step: {e}") from e
     ok7 = not overridden and same(new, rv[1][0])
     col.add("R7.7", "PeriodicValueIteration", file, cls.node.lineno, ok7,
             "no kernel method overridden; sweep term == ValueIteration's" if ok7 else
             (f"overrides kernel methods {overridden}" if overridden else "sweep term differs from ValueIteration's"), text="sweep identical to VI")
+
+
+def _initial_history(ctx, col, cls, file):
     # R7.8
     I4 = solver_interp(ctx, cls, "span", extra_facts={"period": S("self.period")})
     I4.call_method("_initialize_solver_state_elements")
@@ -186,5 +218,3 @@ def run(ctx: Context, col) -> None:
             "buffer = zeros((period+1, n_states)) with row 0 = initial values; history_index = 0" if ok8 else
             f"buffer starts as {brief(vh, 160) if vh else None}, index {show_norm(I4.attrs.get('history_index')) if I4.attrs.get('history_index') else None}",
             text="initial history")
-    for r_, k in (("R7.1", 2), ("R7.2", 1), ("R7.3", 1), ("R7.4", 2), ("R7.5", 1), ("R7.6", 1), ("R7.7", 1), ("R7.8", 1)):
-        col.floor(r_, k)
